@@ -421,7 +421,9 @@ fn more_embeddings() -> Vec<Emb> {
     let mut v = embeddings();
     let base = v[0].clone();
     v.push(Emb { name: "around_zero", ints: vec![-2, -1, 0, 1, 2], floats: vec![-1.5, -0.5, 0.0, 0.5, 1.5], ..base.clone() });
-    v.push(Emb { name: "positive", ints: vec![1, 2, 3, 10, 1000], floats: vec![0.25, 1.0, 2.5, 10.0, 1e6], ..base });
+    v.push(Emb { name: "positive", ints: vec![1, 2, 3, 10, 1000], floats: vec![0.25, 1.0, 2.5, 10.0, 1e6], ..base.clone() });
+    // points on both sides of the quarter periods of sin / cos (pi/2, 3pi/2, 2pi) and of the sign changes of the periodic pieces
+    v.push(Emb { name: "periods", ints: vec![-2, 1, 4, 5, 8], floats: vec![-2.0, 1.0, 4.6, 6.0, 8.0], ..base });
     v
 }
 
